@@ -10,6 +10,7 @@
 From Verif Require Import Base.Util Model.Metadata Model.ResultStore Model.ProposalQueue.
 From Verif Require Import Proofs.MetadataProofs Proofs.ProposalQueueProofs Gen.Generated.
 From Verif Require Import Base.GenIR Gen.GeneratedTr Proofs.GenTrStores.
+From Verif Require Import Base.GenIR Gen.GeneratedTr Proofs.GenTrHooks.
 Open Scope Z_scope.
 
 (* Viewing returns exactly the proposals that are pending (latest add for their type and work
@@ -172,6 +173,23 @@ Theorem C11_gen_Dequeue_cut_decisions :
   end.
 Proof. exact gen_pq_dequeue. Qed.
 Print Assumptions C11_gen_Dequeue_cut_decisions.
+
+End GenTie.
+
+Section GenTie.
+Local Open Scope Z_scope.
+(* ---- Tie to the source by translation (Gen/GeneratedTr.v, regenerated from /repo on every run by gen/translate.go) ----
+   g_* are the decision terms translated from the CURRENT Go code: every condition, the branch structure and which
+   white-listed effect statement runs on which path.  The theorems below state that the model's functions - about
+   which every theorem above speaks - are the interpretation of these terms. *)
+(* pre-build hooks: every surfaced proposal of every round is removed from the pending set, every agreed performable leaves staging, every round of the history is enqueued (an error for one round does not stop the others) *)
+Theorem C11_gen_prebuild_hooks_steps :
+  forall enq_err : bool,
+  g_hook_remove_metadata = ([1], Fall) /\ g_hook_remove_metadata_body = ([1; 2], Fall) /\
+  g_hook_remove_staging = ([1; 2], Fall) /\ g_hook_remove_staging_body = ([1], Fall) /\
+  g_hook_proposalq_body enq_err = (if enq_err then ([1], Cont) else ([1; 2], Fall)).
+Proof. exact gen_hook_prebuild. Qed.
+Print Assumptions C11_gen_prebuild_hooks_steps.
 
 End GenTie.
 
